@@ -99,7 +99,7 @@ def unit_format(ctx, T):
     ctx.count('format_date/luis_date', len(lines))
     for l, a, m in zip(lines, impl, model):
         if a != m:
-            ctx.report('correspondence', 'format-date', '%s: implementation %s, model %s' % (l.replace('\t', ' '), a, m),
+            dtres.report(ctx, 'correspondence', 'format-date', '%s: implementation %s, model %s' % (l.replace('\t', ' '), a, m),
                        failing_input={'op': l, 'implementation': a, 'model': m})
     ctx.sample({'op': lines[20000], 'implementation': impl[20000]})
 
@@ -134,7 +134,7 @@ def unit_generate_dates(ctx, T):
         if a != '1,1,1,0,0,0|1,1,1,0,0,0':
             ctx.nontriv(('gd', l))
         if a != m:
-            ctx.report('correspondence', 'generate_dates', '%s: implementation %s, model %s' % (l.replace('\t', ' '), a, m),
+            dtres.report(ctx, 'correspondence', 'generate_dates', '%s: implementation %s, model %s' % (l.replace('\t', ' '), a, m),
                        failing_input={'op': l, 'implementation': a, 'model': m})
     ctx.sample({'op': lines[777], 'implementation': impl[777]})
 
@@ -205,7 +205,7 @@ def unit_match_to_date(ctx, T, contract):
         if a.startswith('1|') and not a.endswith('1,1,1,0,0,0|1,1,1,0,0,0'):
             ctx.nontriv(('m2d', culture, tuple(sorted(groups.items()))))
         if a != mo:
-            ctx.report('correspondence', 'match_to_date', 'match_to_date[%s] on %r (%s) groups %r: implementation %s, model %s' % (
+            dtres.report(ctx, 'correspondence', 'match_to_date', 'match_to_date[%s] on %r (%s) groups %r: implementation %s, model %s' % (
                 culture, text, name, groups, a, mo),
                 failing_input={'op': 'BaseDateParser.match_to_date', 'culture': culture, 'matched_text': text, 'regex': name,
                                'groups': groups, 'reference': str(ref), 'implementation': a, 'model': mo})
@@ -247,7 +247,7 @@ def unit_resolution(ctx, T):
     ctx.count('_date_time_resolution(date)', len(lines))
     for l, a, m in zip(lines, impl, model):
         if a != m:
-            ctx.report('correspondence', 'date_time_resolution', '%s: implementation %s, model %s' % (l.replace('\t', ' '), a, m),
+            dtres.report(ctx, 'correspondence', 'date_time_resolution', '%s: implementation %s, model %s' % (l.replace('\t', ' '), a, m),
                        failing_input={'op': l, 'implementation': a, 'model': m})
     ctx.sample({'op': lines[5], 'implementation': impl[5]})
 
@@ -376,7 +376,7 @@ def pipeline(ctx, contract):
                             {'op': 'recognize_datetime', 'culture': culture, 'query': q, 'reference': list(ref),
                              'layout': template, 'expected': iso, 'observed': bad}))
     for sig, detail, fi in pending:
-        ctx.report('property', sig, detail, failing_input=fi, property_fails=True)
+        dtres.report(ctx, 'property', sig, detail, failing_input=fi, property_fails=True)
     for k, v in sorted(fam.items()):
         ctx.count(k, v)
     if fails:
@@ -396,7 +396,7 @@ def pipeline(ctx, contract):
         groups.setdefault((c, q), []).append((ref, canon, case))
     for (c, q), lst in groups.items():
         if any(x[1] != lst[0][1] for x in lst):
-            ctx.report('property', 'reference-dependent-%s' % c,
+            dtres.report(ctx, 'property', 'reference-dependent-%s' % c,
                        'parse[%s](%r) differs between references %s' % (c, q, [x[0] for x in lst if x[1] != lst[0][1]][:2]),
                        failing_input={'op': 'recognize_datetime', 'culture': c, 'query': q, 'references': [list(x[0]) for x in lst],
                                       'results': [str(x[1]) for x in lst][:3]}, property_fails=True)
@@ -419,7 +419,7 @@ def replay_witnesses(ctx, T):
     for q, w in want.items():
         if obs[q] != w:
             # the model (and its theorems) say `w`; a different observable behaviour is a model/implementation disagreement
-            ctx.report('correspondence', 'witness-' + q.replace(' ', '_'),
+            dtres.report(ctx, 'correspondence', 'witness-' + q.replace(' ', '_'),
                        'parse(%r): implementation %r, model theorems predict %r' % (q, obs[q], w),
                        failing_input={'op': 'recognize_datetime', 'culture': 'en-us', 'query': q, 'implementation': str(obs[q]),
                                       'model': str(w)},
@@ -464,6 +464,6 @@ def search(ctx, proof_problems):
     for (q, iso), rr in zip(cases, res):
         bad = judge(('en-us', 'search', 'search', q, REFS[2], q, iso), rr)
         if bad:
-            ctx.report('property', 'table-' + q.replace(' ', '_'), 'parse(%r): %s' % (q, bad),
+            dtres.report(ctx, 'property', 'table-' + q.replace(' ', '_'), 'parse(%r): %s' % (q, bad),
                        failing_input={'op': 'recognize_datetime', 'culture': 'en-us', 'query': q, 'reference': list(REFS[2]),
                                       'expected': iso, 'observed': bad}, property_fails=True)
